@@ -67,7 +67,7 @@ func cmdRun(args []string) {
 	pat := fs.String("h", ".*", "harness name regexp")
 	workers := fs.Int("j", 16, "")
 	maxPaths := fs.Int("maxpaths", 0, "")
-	unwind := fs.Int("unwind", 12, "")
+	unwind := fs.Int("unwind", 40, "")
 	policy := fs.Int("policy", 0, "")
 	verbose := fs.Bool("v", false, "")
 	panicViol := fs.Bool("panics", false, "treat panics as violations")
